@@ -222,55 +222,65 @@ class Session:
 BITOPS = ("and", "or", "xor", "shl", "shr", "not")
 
 
+def _isbit(t):
+    return t.dt in INTS and (t.op in BITOPS or (t.op == "cast" and isinstance(t.args[0], T) and t.args[0].dt in INTS))
+
+
 def unpack_lemma(ctx, roots, bits, res=None, clause="unpack(pack(code))==code"):
-    """Sub-byte codes travel through pack -> unpack (shifts/masks) before they are dequantized.  RERR cannot
-    interpret bit operations, so the path is cut compositionally, every step decided by the solver on the real terms:
-      range lemma: each packed leaf L = cast(uint8, F) satisfies L < 2^bits for EVERY value of the floats F is
-                   clamped from (BIT, floats below the clamp cut to fresh variables);
-      field lemma: each maximal bit-op subterm U below `roots` equals one leaf L for every leaf value < 2^bits (BIT/BV).
-    Returns {U.uid: L} (to be used with subst), or raises Inconclusive via res when a lemma is not proved."""
+    """Sub-byte codes travel through pack -> unpack (shifts/masks/integer casts, possibly through wider integer words)
+    before they are dequantized.  RERR/ALG cannot interpret bit operations, so the path is cut compositionally, every step
+    decided by the solver on the real terms:
+      range lemma: each packed leaf L = cast(uint8, F) satisfies L < 2^bits for EVERY value of the floats F is clamped from
+                   (BIT, floats below the clamp cut to fresh variables); variable leaves are constrained by the harness;
+      field lemma: each maximal bit-op/int-cast subterm U below `roots` equals one leaf L (cast to U's dtype) for every leaf
+                   value < 2^bits (BIT/BV).
+    Returns {U.uid: L'} (to be used with subst), or None when a lemma is not proved."""
     from . import bit as bitmod
 
     cache = ctx.__dict__.setdefault("lemma_cache", {"range": {}, "field": {}})
     order = tm.topo(list(roots))
-    isbit = lambda t: t.dt == torch.uint8 and t.op in BITOPS  # noqa
     users = {}
     for t in order:
-        for a in t.args:
-            if isinstance(a, T):
-                users.setdefault(a.uid, []).append(t)
-    maximal = [t for t in order if isbit(t) and any(not isbit(u) for u in users.get(t.uid, [])) or (isbit(t) and t in roots)]
+        for a_ in t.args:
+            if isinstance(a_, T):
+                users.setdefault(a_.uid, []).append(t)
+    rootset = {r.uid for r in roots}
+    maximal = [t for t in order if _isbit(t) and (any(not _isbit(u) for u in users.get(t.uid, [])) or t.uid in rootset)]
+    # an int-cast directly above a leaf is not a cone
+    maximal = [t for t in maximal if any(x.op in BITOPS for x in tm.topo([t]) if _isbit(x))]
     mapping = {}
     if not maximal:
         return mapping
-    # leaves of all bit-op cones
     leaves = {}
     for u in maximal:
-        for t in tm.topo([u]):
-            if not isbit(t) and t.op != "const" and t.dt == torch.uint8:
+        stack, seen = [u], set()
+        while stack:
+            t = stack.pop()
+            if t.uid in seen:
+                continue
+            seen.add(t.uid)
+            if _isbit(t):
+                stack.extend(x for x in t.args if isinstance(x, T))
+            elif t.op != "const" and t.dt in INTS:
                 leaves[t.uid] = t
     leaves = list(leaves.values())
     ok = True
-    # range lemma
     for L in leaves:
-        if L.op == "var":
+        if L.op == "var" or L.dt != torch.uint8:
             continue
         if L.uid in cache["range"]:
             ok = ok and cache["range"][L.uid]
             continue
-        floats = [t for t in tm.topo([L]) if tm.is_float(t.dt) and t.op not in ("min", "max", "const", "cast") or (t.op == "cast" and tm.is_float(t.dt) and not tm.is_float(t.args[0].dt))]
-        # cut at the arguments of the clamp (maximal float subterms that are not min/max/const)
-        tops = []
-        seen = set()
+        tops, seen = [], set()
 
         def walk(t):
             if t.uid in seen:
                 return
             seen.add(t.uid)
             if t.op in ("min", "max") and tm.is_float(t.dt) or (t.op == "cast" and t is L):
-                for a in t.args:
-                    if isinstance(a, T):
-                        walk(a)
+                for x in t.args:
+                    if isinstance(x, T):
+                        walk(x)
             elif t.op != "const":
                 tops.append(t)
 
@@ -282,24 +292,25 @@ def unpack_lemma(ctx, roots, bits, res=None, clause="unpack(pack(code))==code"):
             res.query(clause, "BIT", v, secs, sub="range-lemma")
         cache["range"][L.uid] = v == "unsat"
         ok = ok and v == "unsat"
-    # field lemma
     todo = [U for U in maximal if U.uid not in cache["field"]]
     for U in maximal:
         if U.uid in cache["field"]:
             mapping[U.uid] = cache["field"][U.uid]
-    maximal = todo
-    if not maximal:
+    if not todo:
         return mapping if ok else None
-    cutU, cmap, back = cut(ctx, maximal, leaves, "leaf")
+    cutU, cmap, back = cut(ctx, todo, leaves, "leaf")
     b = bitmod.Bit(ctx)
-    pre = [z3.ULT(b.tr(cmap[L.uid]), 2**bits) for L in leaves]
-    for U, Uc in zip(maximal, cutU):
+    pre = {L.uid: z3.ULT(b.tr(cmap[L.uid]), 2**bits) for L in leaves if L.dt == torch.uint8}
+    for U, Uc in zip(todo, cutU):
         found = None
-        cands = sorted(leaves, key=lambda L: L.cv != U.cv)
-        for L in cands:
-            if L.cv != U.cv:
+        # only the leaves this cone mentions can equal it
+        mine = [L for L in leaves if cmap[L.uid].args[0] in tm.support([Uc])]
+        uw = wrapv = None
+        for L in sorted(mine, key=lambda L: tm.wrap_int(int(L.cv), U.dt) != U.cv):
+            if tm.wrap_int(int(L.cv), U.dt) != U.cv:
                 break
-            v, secs, _ = solve(pre + [b.tr(Uc) != b.tr(cmap[L.uid])], 60)
+            lz = b.tr(ctx.cast(cmap[L.uid], U.dt))
+            v, secs, _ = solve([pre[x.uid] for x in mine if x.uid in pre] + [b.tr(Uc) != lz], 60)
             if v == "unsat":
                 found = L
                 if res is not None:
@@ -310,8 +321,8 @@ def unpack_lemma(ctx, roots, bits, res=None, clause="unpack(pack(code))==code"):
             if res is not None:
                 res.query(clause, "BIT", "unknown", 0.0, sub="field-lemma", note=f"no leaf proved equal to {U.pretty(3)}")
         else:
-            # the leaf may itself contain earlier (inner) bit-op cones: close the mapping under itself
-            mapping[U.uid] = subst(ctx, [found], mapping)[0] if mapping else found
+            rep = ctx.cast(found, U.dt)
+            mapping[U.uid] = subst(ctx, [rep], mapping)[0] if mapping else rep
             cache["field"][U.uid] = mapping[U.uid]
     return mapping if ok else None
 
